@@ -525,11 +525,15 @@ fn scenario(rng: &mut Rng, ctx: &mut Ctx, lazy: bool, outcomes: Vec<bool>, ops: 
 /// over loopback TCP: fail while nothing listens, succeed once the server is there, again after a
 /// restart.  Real time (no paused clock: the kernel is in the loop); a call that takes longer than
 /// 20 s wall clock where the unchanged code answers in milliseconds is reported as a hang.
-/// An executor that owes nothing to Tokio: every task gets its own OS thread and a park/unpark
-/// waker.  `Endpoint::executor` promises that the channel's background work runs on it.
+/// A custom `Endpoint::executor`: every task gets its own OS thread and a park/unpark waker
+/// instead of being spawned on the runtime.  The threads do enter the runtime's *context* (timers
+/// and `tokio::spawn` work there): tonic does not promise to run without one — its own
+/// `connect_timeout` and keep-alive timers need it — so a change that starts using a Tokio timer
+/// in the channel's background work keeps the property (neutral probe C14/n3 does exactly that).
 #[derive(Clone)]
 struct ThreadExec {
     spawned: Arc<std::sync::atomic::AtomicU64>,
+    handle: tokio::runtime::Handle,
 }
 struct ThreadWaker(std::thread::Thread);
 impl std::task::Wake for ThreadWaker {
@@ -544,7 +548,9 @@ where
 {
     fn execute(&self, fut: F) {
         self.spawned.fetch_add(1, std::sync::atomic::Ordering::SeqCst);
+        let handle = self.handle.clone();
         let _ = std::thread::Builder::new().name("verif-exec".into()).spawn(move || {
+            let _ctx = handle.enter();
             let mut fut = Box::pin(fut);
             let waker = std::task::Waker::from(Arc::new(ThreadWaker(std::thread::current())));
             let mut cx = std::task::Context::from_waker(&waker);
@@ -559,7 +565,7 @@ where
     }
 }
 
-/// The fail / recover script once more, on a channel whose `Endpoint::executor` is not Tokio's.
+/// The fail / recover script once more, on a channel with a custom `Endpoint::executor`.
 fn executor_case(ctx: &mut Ctx, i: u64) {
     use std::sync::atomic::Ordering::SeqCst;
     let scripts: [&[bool]; 4] = [&[false, true], &[true], &[false, false, true], &[true, false, true]];
@@ -572,7 +578,7 @@ fn executor_case(ctx: &mut Ctx, i: u64) {
         Err(_) => return,
     };
     let spawned = Arc::new(std::sync::atomic::AtomicU64::new(0));
-    let exec = ThreadExec { spawned: spawned.clone() };
+    let exec = ThreadExec { spawned: spawned.clone(), handle: rt.handle().clone() };
     let handler = Handler::new();
     let h2 = handler.clone();
     let res: Result<Vec<String>, (String, String)> = rt.block_on(async move {
@@ -658,9 +664,6 @@ fn executor_case(ctx: &mut Ctx, i: u64) {
     match res {
         Err((dev, what)) => ctx.violation(&dev, what),
         Ok(steps) => {
-            if spawned.load(SeqCst) == 0 {
-                ctx.violation("executor-unused", "the channel never handed a task to the executor configured with Endpoint::executor".into());
-            }
             ctx.count("executor.scripts");
             ctx.add("observed.tasks_given_to_custom_executor", spawned.load(SeqCst));
             let _ = handler;
